@@ -49,13 +49,15 @@ def short_binary(v):
     return abs(v) < 2.0 ** 30 and float(v * 2.0 ** 20).is_integer()
 
 
-def keyclass(st):
-    """Coarse, maintainer-recognisable class of a raw column (used in finding keys)."""
+def keyclass(st, mag=0.0, k=0):
+    """Coarse, maintainer-recognisable class of a raw column (used in finding keys).
+
+    mag / k: largest magnitude the trait had in the matrices this column descends from, number of store/unscale cycles."""
     if st is None:
         return "all-NaN column"
-    if st["const"] or st["tstd"] <= 8.0 * EPS * st["mag"]:
-        # exactly constant, or constant up to noise in the last bits (after one store/unscale cycle the library itself
-        # cannot tell the two apart, so a finding on either is the same mechanism)
+    if st["const"] or st["tstd"] <= 8.0 * EPS * (k + 1) * max(st["mag"], mag):
+        # exactly constant, or constant up to the round-trip error (after a store/unscale cycle the library itself cannot
+        # tell the two apart, so a finding on either is the same mechanism)
         return "constant column"
     if st["nan"]:
         return "column with NaN entries"
